@@ -306,7 +306,11 @@ impl Analyzer<'_> {
       BlockKind::Function => {}
       BlockKind::Loop => {}
       _ => {
-        if self.scope.found_break.is_none() {
+        // An unlabelled `break` must never be hidden by a labelled one: the loop
+        // visitors only look for `Some(None)`.
+        if self.scope.found_break.is_none()
+          || matches!(found_break, Some(None))
+        {
           self.scope.found_break = found_break;
         }
       }
@@ -408,8 +412,11 @@ impl Visit for Analyzer<'_> {
 
   fn visit_break_stmt(&mut self, n: &BreakStmt) {
     if let Some(label) = &n.label {
-      let label = label.to_id();
-      self.scope.found_break = Some(Some(label));
+      // Do not overwrite an already recorded (in particular an unlabelled) break.
+      if self.scope.found_break.is_none() {
+        let label = label.to_id();
+        self.scope.found_break = Some(Some(label));
+      }
     } else {
       self.scope.found_break = Some(None);
     }
